@@ -613,6 +613,17 @@ func (w *worker) runCase(cs J) (res CaseResult) {
 		}
 	}
 	dbs, extra := stateDbs(allStates...)
+	var watchArgs []string
+	for _, s := range steps {
+		if jInt(s.(J)["c"]) == 0 {
+			continue
+		}
+		if cmd := jCmd(s.(J)["cmd"]); len(cmd) > 1 && strings.EqualFold(string(cmd[0]), "WATCH") {
+			for _, a := range cmd[1:] {
+				watchArgs = append(watchArgs, string(a))
+			}
+		}
+	}
 	// verify the load (trusted constructors are themselves checked here)
 	ctx.ElapsedMs = time.Since(t0).Milliseconds()
 	ob, err := project(obsC, dbs, extra)
@@ -716,7 +727,29 @@ func (w *worker) runCase(cs J) (res CaseResult) {
 		var sess map[int64]*SessObs
 		var sessErr string
 		if i == len(steps)-1 {
-			sess, sessErr = observeSessions(conns, ideal["post"].(J))
+			sess, sessErr = observeSessions(conns, ideal["post"].(J), func() error {
+				// every key of the case (states and WATCH arguments) in every database of the case
+				keys := map[string]bool{}
+				for _, ks := range extra {
+					for _, k := range ks {
+						keys[k] = true
+					}
+				}
+				for _, k := range watchArgs {
+					keys[k] = true
+				}
+				for _, db := range dbs {
+					if r, err := obsC.DoS("SELECT", fmt.Sprint(db)); err != nil || r.Kind == '-' {
+						return fmt.Errorf("SELECT %d: %v %v", db, r, err)
+					}
+					for k := range keys {
+						if r, err := obsC.Do([]byte("SET"), []byte(k), []byte("~probe")); err != nil || r.Kind == '-' {
+							return fmt.Errorf("SET %q: %v %v", k, r, err)
+						}
+					}
+				}
+				return nil
+			})
 		}
 		check := func(e J) string {
 			if !matchReply(e["r"].(J), rep, ctx) {
@@ -809,6 +842,7 @@ func wireTypesOk(proto int, exp J, rep *Reply) string {
 }
 
 type SessObs struct {
+	ExecNil bool // the probe transaction was aborted although every key had just been rewritten by the observer
 	InMulti bool
 	Db      string
 	Resp    string
@@ -818,8 +852,12 @@ type SessObs struct {
 // observeSessions observes, for every connection of the case, whether it is inside MULTI (a MULTI probe
 // replies an error iff it is; a successful probe is undone with DISCARD) and, when it is not, its selected
 // database, protocol version and name through CLIENT INFO.  Destructive for watches: last step only.
-func observeSessions(conns map[int64]*Conn, post J) (map[int64]*SessObs, string) {
+// Watch probe (C09 "no watched keys after EXEC / DISCARD", C10): inside the probe MULTI the observer
+// rewrites every key of the case in every database of the case (touch), then PING is queued and EXEC sent:
+// a connection that watches nothing must run it; a nil reply shows a watch that was left behind.
+func observeSessions(conns map[int64]*Conn, post J, touch func() error) (map[int64]*SessObs, string) {
 	out := map[int64]*SessObs{}
+	touched := false
 	for _, c := range jList(post["conn"]) {
 		cj := c.(J)
 		if _, ok := cj["name"]; !ok {
@@ -840,9 +878,20 @@ func observeSessions(conns map[int64]*Conn, post J) (map[int64]*SessObs, string)
 			so.InMulti = true
 			continue
 		}
-		if r, err := cn.DoS("DISCARD"); err != nil || r.Kind != '+' {
-			return nil, fmt.Sprintf("connection %d: DISCARD after the MULTI probe replied %v %v", id, r, err)
+		if !touched {
+			if err := touch(); err != nil {
+				return nil, "watch probe: " + err.Error()
+			}
+			touched = true
 		}
+		if r, err := cn.DoS("PING"); err != nil || r.Kind != '+' || string(r.Str) != "QUEUED" {
+			return nil, fmt.Sprintf("connection %d: PING inside the probe MULTI replied %v %v", id, r, err)
+		}
+		r, err = cn.DoS("EXEC")
+		if err != nil || (r.Kind != '*' && !r.Null) {
+			return nil, fmt.Sprintf("connection %d: EXEC of the probe transaction replied %v %v", id, r, err)
+		}
+		so.ExecNil = r.Null
 		info, err := cn.DoS("CLIENT", "INFO")
 		if err != nil || info.Null || (info.Kind != '$' && info.Kind != '=' && info.Kind != '+') {
 			return nil, fmt.Sprintf("connection %d: CLIENT INFO replied %v %v", id, info, err)
@@ -872,6 +921,9 @@ func compareSessions(post J, obs map[int64]*SessObs) string {
 		}
 		if so.InMulti {
 			continue
+		}
+		if nw, ok := cj["nwatch"]; ok && jInt(nw) == 0 && so.ExecNil {
+			return fmt.Sprintf("connection %d: expected no watched keys, but MULTI / PING / EXEC replied nil after the observer rewrote every key: a watch was left behind", id)
 		}
 		if so.Db != fmt.Sprint(jInt(cj["db"])) {
 			return fmt.Sprintf("connection %d: expected selected db %d, CLIENT INFO says db=%s", id, jInt(cj["db"]), so.Db)
